@@ -48,8 +48,13 @@ fn c02_standard_file_two_blocks() {
 /// texture entry: the extracted file is the texture header followed by every mip level's blocks
 /// in order; block positions follow the flat i16 size table (mip 0: blocks of 128 and 256 bytes,
 /// mip 1: two blocks of 128 bytes)
+/// every block of these entries is stored raw: an attempt to inflate means a block header was read from the wrong
+/// place (the real inflate routine on whatever bytes lie there would only make the wrong walk undecidable)
+fn inflate_must_not_be_called(_input: &mut [u8], _output: &mut [u8]) -> bool { false }
+
 #[kani::proof]
 #[kani::unwind(24)]
+#[kani::stub(crate::compression::no_header_decompress, inflate_must_not_be_called)]
 fn c02_texture_file_two_mips() {
     const HS: usize = 128;      // entry header size
     const TABLE: usize = 64;    // where FileInfo::read leaves the cursor: the i16 block size table
